@@ -5,10 +5,12 @@ Completeness of the builders (converse of R2): vocabulary.
 * `vsize ext x`   — an explicit size of a serde value: one unit per call plus the bytes every scalar can contribute
                     to a data buffer (its `to_string` form for the scalars string builders accept).
 * `room b`        — the head room of a builder state: the minimum, over every capacity-limited counter in the
-                    builder tree, of `limit - current` (last offset of every offsets vector and the length of
-                    every view buffer against `i32::MAX`; number of dictionary values against the key type).
+                    builder tree, of `limit - current` (last offset of every offsets vector, the length of
+                    every view buffer and every per-variant row counter `current_offset[v]` of a union against
+                    `i32::MAX`; number of dictionary values against the key type).
 * `NoCap ext b x` — `vsize ext x ≤ room b`: no capacity check (`increment_last`, view `pack_extern`, dictionary key
-                    conversion) can refuse the value.
+                    conversion, the checked `current_offset[v] + 1` of `UnionBuilder::serialize_variant`) can
+                    refuse the value.
 * `total dt n md` — the schema-level exclusion found while proving completeness: a nullable struct /
                     fixed-size list whose children cannot take `serialize_default` (an `UnknownVariant`
                     placeholder, a union without variants or with placeholder variants only) refuses `None`
@@ -85,6 +87,44 @@ def keyRoom (idx : B) (n : Nat) : Nat :=
   | .leaf _ (.int t) _ _ => t.max.toNat + 1 - n
   | _ => 0
 
+/-- head room of the per-variant row counters of a union (`current_offset: Vec<i32>`, checked `+ 1` per row) -/
+def curRoom : List Int → Nat
+  | [] => LIM
+  | co :: r => min (LIM - co.toNat) (curRoom r)
+
+theorem curRoom_le_LIM : ∀ (cur : List Int), curRoom cur ≤ LIM
+  | [] => Nat.le_refl _
+  | co :: r => by simp only [curRoom]; have := curRoom_le_LIM r; omega
+
+theorem curRoom_get : ∀ (cur : List Int) (i : Nat) (co : Int), cur[i]? = some co → curRoom cur ≤ LIM - co.toNat
+  | [], i, co, h => by simp at h
+  | c :: r, 0, co, h => by
+    simp only [List.getElem?_cons_zero, Option.some.injEq] at h
+    subst h; simp only [curRoom]; omega
+  | c :: r, i + 1, co, h => by
+    simp only [List.getElem?_cons_succ] at h
+    have := curRoom_get r i co h
+    simp only [curRoom]; omega
+
+/-- a union row may be pushed: the counter of the variant is below `i32::MAX` -/
+theorem curRoom_pos_get {cur : List Int} {i : Nat} {co : Int} (h : cur[i]? = some co) (hr : 1 ≤ curRoom cur) :
+    ¬ (co + 1 > 2147483647) := by
+  have := curRoom_get cur i co h
+  simp only [LIM] at this
+  omega
+
+/-- one row of one variant takes one unit of the counters' head room -/
+theorem curRoom_set : ∀ (cur : List Int) (i : Nat) (co : Int), cur[i]? = some co →
+    curRoom cur ≤ curRoom (cur.set i (co + 1)) + 1
+  | [], i, co, h => by simp at h
+  | c :: r, 0, co, h => by
+    simp only [List.getElem?_cons_zero, Option.some.injEq] at h
+    subst h; simp only [List.set_cons_zero, curRoom]; omega
+  | c :: r, i + 1, co, h => by
+    simp only [List.getElem?_cons_succ] at h
+    have := curRoom_set r i co h
+    simp only [List.set_cons_succ, curRoom]; omega
+
 mutual
 /-- head room: the minimum of `limit - current` over every capacity-limited counter in the builder tree -/
 def room : B → Nat
@@ -99,7 +139,7 @@ def room : B → Nat
   | .map _ _ _ offs ks vs => min (LIM - lastNat offs) (min (room ks) (room vs))
   | .struct _ _ _ fs _ _ _ => roomL fs
   | .dictionary _ idx vals index => min (keyRoom idx index.length) (room vals)
-  | .union _ fs _ _ _ => roomL fs
+  | .union _ fs _ _ cur => min (curRoom cur) (roomL fs)
 def roomL : BL → Nat
   | .nil => LIM
   | .cons b _ r => min (room b) (roomL r)
